@@ -3,11 +3,9 @@
    their child list.  GF = "has the value".  Instances: feature sets, forced literals, counts.
    gf_transfer: values of kept nodes carry over from g to g' up to a relation R. *)
 From Coq Require Import List ZArith Bool Lia Arith.
-From DD Require Import Model.Circuit Model.LoadC2d Model.LoadD4 Proofs.LoadD4Graph.
+From DD Require Import Model.Circuit Model.LoadC2d Model.LoadD4 Proofs.LoadD4Graph Proofs.LoadD4Ops.
 Import ListNotations.
 Local Open Scope nat_scope.
-
-Definition is_gate (t : tid) : bool := match t with GAnd | GOr => true | _ => false end.
 
 Section Fold.
 Context {A : Type}.
